@@ -25,12 +25,12 @@ Record wf_store (st : store) : Prop := mkWf {
 Lemma decide_missing V answers : forall acc, (exists c, In (SMissing c) answers) -> (forall c, In (SMissing c) answers -> c = V) -> decide acc answers = V.
 Proof.
   induction answers as [|a rest IH]; intros acc [c Hc] Hall; [destruct Hc|].
-  destruct a as [mc|c']; cbn [decide].
+  destruct a as [mc ia|c']; cbn [decide].
   - apply IH; [destruct Hc as [Hc|Hc]; [discriminate|exists c; exact Hc]|intros x Hx; apply Hall; right; exact Hx].
   - apply Hall; left; reflexivity.
 Qed.
 (* answers may only change from "locked" to "missing, decided as V" *)
-Definition ans_rel (V : option N) (a0 a : sec_answer) : Prop := a = a0 \/ exists mc, a0 = SLocked mc /\ a = SMissing V.
+Definition ans_rel (V : option N) (a0 a : sec_answer) : Prop := a = a0 \/ exists mc ia, a0 = SLocked mc ia /\ a = SMissing V.
 Lemma decide_stable V acc : forall ans0 ans, Forall2 (ans_rel V) ans0 ans -> decide acc ans0 = V ->
   (forall c1 c2, In (SMissing c1) ans0 -> In (SMissing c2) ans0 -> c1 = c2) -> decide acc ans = V.
 Proof.
@@ -40,14 +40,40 @@ Proof.
   assert (Hm : forall c, In (SMissing c) ans -> c = V).
   { clear HV Hagree. induction HR as [|a0 a l0 l Ha _ IH]; intros c Hc; [destruct Hc|].
     destruct Hc as [Hc|Hc].
-    - destruct Ha as [Ha|(mc & _ & Ha)]; [|congruence]. apply Hm0. left. congruence.
+    - destruct Ha as [Ha|(mc & ia & _ & Ha)]; [|congruence]. apply Hm0. left. congruence.
     - apply IH; [intros x Hx; apply Hm0; right; exact Hx|exact Hc]. }
   assert (Hex : (exists c, In (SMissing c) ans) \/ ans = ans0).
   { clear - HR. induction HR as [|a0 a l0 l Ha _ IH]; [right; reflexivity|].
-    destruct a as [mc|c]; [|left; exists c; left; reflexivity].
+    destruct a as [mc ia|c]; [|left; exists c; left; reflexivity].
     destruct IH as [[c Hc]| ->]; [left; exists c; right; exact Hc|].
-    destruct Ha as [-> |(mc' & _ & Ha)]; [right; reflexivity|discriminate]. }
+    destruct Ha as [-> |(mc' & ia' & _ & Ha)]; [right; reflexivity|discriminate]. }
   destruct Hex as [Hex| ->]; [apply decide_missing; assumption|exact HV].
+Qed.
+Lemma missing_no_fallback c l : In (SMissing c) l -> fallback_now l = false.
+Proof.
+  intros H. unfold fallback_now. replace (existsb is_missing l) with true; [reflexivity|].
+  symmetry. apply existsb_exists. exists (SMissing c). split; [exact H|reflexivity].
+Qed.
+Definition async_value (acc : N) (answers : list sec_answer) : option N := if fallback_now answers then None else decide acc answers.
+Lemma value_stable V acc : forall ans0 ans, Forall2 (ans_rel V) ans0 ans -> async_value acc ans0 = V ->
+  (forall c1 c2, In (SMissing c1) ans0 -> In (SMissing c2) ans0 -> c1 = c2) -> async_value acc ans = V.
+Proof.
+  intros ans0 ans HR HV Hagree.
+  assert (Hm0 : forall c, In (SMissing c) ans0 -> c = V).
+  { intros c Hc. rewrite <- HV. unfold async_value. rewrite (missing_no_fallback _ _ Hc). symmetry.
+    apply decide_missing; [exists c; exact Hc|intros c' Hc'; exact (Hagree _ _ Hc' Hc)]. }
+  assert (Hm : forall c, In (SMissing c) ans -> c = V).
+  { clear HV Hagree. induction HR as [|a0 a l0 l Ha _ IH]; intros c Hc; [destruct Hc|].
+    destruct Hc as [Hc|Hc].
+    - destruct Ha as [Ha|(mc & ia & _ & Ha)]; [|congruence]. apply Hm0. left. congruence.
+    - apply IH; [intros x Hx; apply Hm0; right; exact Hx|exact Hc]. }
+  assert (Hex : (exists c, In (SMissing c) ans) \/ ans = ans0).
+  { clear - HR. induction HR as [|a0 a l0 l Ha _ IH]; [right; reflexivity|].
+    destruct a as [mc ia|c]; [|left; exists c; left; reflexivity].
+    destruct IH as [[c Hc]| ->]; [left; exists c; right; exact Hc|].
+    destruct Ha as [-> |(mc' & ia' & _ & Ha)]; [right; reflexivity|discriminate]. }
+  destruct Hex as [[c Hc]| ->]; [|exact HV].
+  unfold async_value. rewrite (missing_no_fallback _ _ Hc). apply decide_missing; [exists c; exact Hc|exact Hm].
 Qed.
 
 Section Inv.
@@ -151,7 +177,7 @@ Section Inv.
       rewrite (resolve_unfold _ _ Hl2 Hle).
       destruct ((l_start l2 =? t) && negb (is_pess l2)) eqn:Eb.
       + apply Bool.andb_true_iff in Eb as [Et Ep]. apply N.eqb_eq in Et. apply Bool.negb_true_iff in Ep.
-        right. exists (l_min_commit l2). split; [reflexivity|]. f_equal.
+        right. exists (l_min_commit l2), (l_async l2). split; [reflexivity|]. f_equal.
         assert (Hp2 : l_primary l2 = l_primary l) by (apply (wf_w2 _ Hwf rk0 rp0 l2 l); assumption).
         rewrite Hp2, Et, HD. rewrite <- Et. rewrite (apply_outcome_writes _ _ _ Ep).
         destruct (async_decide st0 l); [reflexivity|]. apply (wf_w1 _ Hwf _ _ Hin0 Hl2).
@@ -163,8 +189,9 @@ Section Inv.
   Lemma async_decide_stable st rp0 l : InvP st -> In rp0 st0 -> k_lock rp0 = Some l -> l_async l = true -> k_key rp0 = l_primary l ->
     async_decide st l = async_decide st0 l.
   Proof.
-    intros HI Hin Hl Ha Hkp. unfold async_decide at 1. apply (decide_stable _ _ (map (sec_answer_of st0 (l_start l)) (l_secs l))).
-    - induction (l_secs l) as [|k ks IH]; cbn [map]; constructor; [eapply answer_stable; eassumption|exact IH].
+    intros HI Hin Hl Ha Hkp. change (async_decide st l) with (async_value (l_min_commit l) (sec_answers st l)).
+    apply (value_stable _ _ (sec_answers st0 l)).
+    - unfold sec_answers. induction (l_secs l) as [|k ks IH]; cbn [map]; constructor; [eapply answer_stable; eassumption|exact IH].
     - reflexivity.
     - intros c1 c2 H1 H2. apply in_map_iff in H1 as (k1 & H1 & Hk1). apply in_map_iff in H2 as (k2 & H2 & Hk2).
       exact (wf_w4 _ Hwf _ _ _ _ _ _ Hin Hl Ha Hk1 Hk2 H1 H2).
@@ -220,16 +247,21 @@ Section Inv.
     exists r0 l, In r0 st0 /\ k_lock r0 = Some l /\ l_primary l = p /\ l_start l = t /\ t <= sp.
 
   (* the lock of t found on p may be rolled back *)
+  (* a prewrite lock of t found on the key that a lock of t names as primary is the primary lock *)
+  Lemma primary_is_self p t rp0 l' : justified p t -> In rp0 st0 -> k_key rp0 = p -> k_lock rp0 = Some l' -> l_start l' = t ->
+    is_pess l' = false -> l_primary l' = p.
+  Proof.
+    intros (r0 & l & Hin & Hl & Hp & Ht & Hle) Hinp Hkp Hl' Ht' Ep.
+    destruct (is_pess l) eqn:Epl.
+    - rewrite <- Hkp. apply (wf_w3 _ Hwf r0 rp0 l l'); try assumption; congruence.
+    - rewrite <- Hp. apply (wf_w2 _ Hwf rp0 r0 l' l); try assumption; congruence.
+  Qed.
   Lemma primary_lock_rollbackable p t rp0 l' : justified p t -> In rp0 st0 -> k_key rp0 = p -> k_lock rp0 = Some l' -> l_start l' = t ->
     l_async l' = false -> is_pess l' = true \/ committed_at st0 (l_primary l') (l_start l') = None.
   Proof.
-    intros (r0 & l & Hin & Hl & Hp & Ht & Hle) Hinp Hkp Hl' Ht' Hna.
+    intros Hj Hinp Hkp Hl' Ht' Hna.
     destruct (is_pess l') eqn:Ep; [left; reflexivity|right].
-    assert (Hprim : l_primary l' = p).
-    { destruct (is_pess l) eqn:Epl.
-      - rewrite <- Hkp. apply (wf_w3 _ Hwf r0 rp0 l l'); try assumption; congruence.
-      - rewrite <- Hp. apply (wf_w2 _ Hwf rp0 r0 l' l); try assumption; congruence. }
-    rewrite Hprim, <- Hkp, (committed_at_found _ _ _ _ (find_key_in _ _ uniq0 Hinp)), Hl', Hna, Bool.andb_false_r.
+    rewrite (primary_is_self p t rp0 l' Hj Hinp Hkp Hl' Ht' Ep), <- Hkp, (committed_at_found _ _ _ _ (find_key_in _ _ uniq0 Hinp)), Hl', Hna, Bool.andb_false_r.
     apply (wf_w1 _ Hwf _ _ Hinp Hl').
   Qed.
 
@@ -237,17 +269,24 @@ Section Inv.
   Proof.
     intros HI Hj. unfold status_check. destruct (find_key st p) as [rp|] eqn:E; [|exact HI].
     destruct (k_lock rp) as [l'|] eqn:El; [|exact HI].
-    destruct (l_start l' =? t) eqn:Et; [|exact HI]. destruct (l_async l' && negb (is_pess l')) eqn:Ea; [exact HI|]. cbn [fst]. apply N.eqb_eq in Et.
+    destruct (l_start l' =? t) eqn:Et; [|exact HI].
+    destruct (l_async l' && negb (is_pess l') && negb (fallback_now (sec_answers st l'))) eqn:Ea; [exact HI|]. cbn [fst]. apply N.eqb_eq in Et.
     rewrite upd_key_map. apply InvP_map; [exact HI| |].
     - intros r. destruct (bytes_eqb _ _); reflexivity.
     - intros r r0 Hin Hin0 Hr. destruct (bytes_eqb (k_key r) p) eqn:Ek; [|exact Hr].
-      apply bytes_eqb_eq in Ek. apply find_key_some in E as [Hinp Hkp].
+      apply bytes_eqb_eq in Ek. pose proof E as E0. apply find_key_some in E as [Hinp Hkp].
       assert (r = rp) by (apply (InvP_uniq _ HI); congruence). subst r.
       pose proof (rel0_lock _ _ _ Hr El) as ->.
       destruct Hj as (rj & lj & Hj). pose proof Hj as (_ & _ & _ & _ & Hle).
       eapply rel0_clear; [exact El|rewrite Et; exact Hle|].
-      destruct (is_pess l') eqn:Epp; [left; reflexivity|]. rewrite Bool.andb_true_r in Ea.
-      destruct (primary_lock_rollbackable p t r0 l') as [G|G]; try assumption; [exists rj, lj; exact Hj|congruence|right; exact G].
+      destruct (is_pess l') eqn:Epp; [left; reflexivity|right].
+      assert (Hprim : l_primary l' = p) by (apply (primary_is_self p t r0 l'); try assumption; exists rj, lj; exact Hj).
+      destruct (l_async l') eqn:Eas.
+      + (* the nonAsyncCommitLock fallback: the outcome is a rollback, now and initially *)
+        cbn [andb negb] in Ea. apply Bool.negb_false_iff in Ea.
+        rewrite <- (outcome_stable_lock st r0 l' HI Hin0 El Epp), Hprim, (committed_at_found _ _ _ _ E0), El, Et, N.eqb_refl, Eas. cbn [andb].
+        unfold async_decide. rewrite Ea. reflexivity.
+      + destruct (primary_lock_rollbackable p t r0 l') as [G|G]; try assumption; [exists rj, lj; exact Hj|congruence].
   Qed.
 
   (* the value returned by the status check of a prewrite lock's transaction is its outcome *)
@@ -262,7 +301,9 @@ Section Inv.
     apply N.eqb_eq in Et. destruct (InvP_find _ _ _ HI E) as (rp0 & Hf0 & Hin0 & Hr).
     pose proof (rel0_lock _ _ _ Hr El) as ->.
     destruct (l_async l') eqn:Ea; cbn [snd andb].
-    - rewrite (wf_w5 _ Hwf _ _ Hin0 El Ea). reflexivity.
+    - rewrite (wf_w5 _ Hwf _ _ Hin0 El Ea). cbn [negb andb].
+      destruct (fallback_now (sec_answers st l')) eqn:Ef; cbn [negb snd]; [|reflexivity].
+      unfold async_decide. rewrite Ef. reflexivity.
     - rewrite <- Et. symmetry. apply (wf_w1 _ Hwf _ _ Hin0 El).
   Qed.
 
